@@ -17,7 +17,7 @@ func propC05(c *Ctx) {
 	w := c.W
 	conv := m.conv
 	fDeps := w.Field("shovel/config", "Integration", "Dependencies")
-	fStop := w.Field("shovel", "Task", "stop")
+	_ = w.Field("shovel", "Task", "stop")
 	loads := callsToFn(conv, m.load)
 	deps := callsToFn(conv, m.latestDep)
 	lats := callsToFn(conv, m.latest)
@@ -35,14 +35,35 @@ func propC05(c *Ctx) {
 	localNum := extractOf(lat, 0)
 	depNum := extractOf(dep, 0)
 	depErr, _ := errResult(dep)
-	// target = X in min(X - localNum, batch)
+	// target = X in the step size, which is bounded by X - localNum
 	var target ssa.Value
-	if mc, ok := ld.Call.Args[5].(*ssa.Call); ok && calleeName(mc) == "builtin min" {
-		for _, a := range mc.Call.Args {
-			if b, ok := a.(*ssa.BinOp); ok && b.Op == token.SUB && b.Y == localNum {
-				target = b.X
+	{
+		seen := map[ssa.Value]bool{}
+		var walk func(v ssa.Value, d int)
+		walk = func(v ssa.Value, d int) {
+			v = stripNum(v)
+			if seen[v] || d > 6 {
+				return
+			}
+			seen[v] = true
+			switch x := v.(type) {
+			case *ssa.BinOp:
+				if x.Op == token.SUB && stripNum(x.Y) == localNum {
+					target = x.X
+				}
+			case *ssa.Phi:
+				for _, e := range x.Edges {
+					walk(e, d+1)
+				}
+			case *ssa.Call:
+				if calleeName(x) == "builtin min" {
+					for _, a := range x.Call.Args {
+						walk(a, d+1)
+					}
+				}
 			}
 		}
+		walk(ld.Call.Args[5], 0)
 	}
 	if target == nil {
 		c.Violation("R5.1", "Converge/target", ld.Pos(), "cannot identify the step target (limit is not min(target - position, batch))")
@@ -83,32 +104,51 @@ func propC05(c *Ctx) {
 		return (b.Op == token.LSS && b.X == depNum && b.Y == gethNum)
 	})
 	_ = depBelow
-	nLeaf := 0
-	for _, lf := range phiLeaves(target) {
-		nLeaf++
-		v := lf.Val
-		key := fmt.Sprintf("Converge/target-def#%d", nLeaf)
-		pos := ld.Pos()
-		if lf.Pred != nil {
-			pos = instrPos(terminator(lf.Pred))
-		}
-		switch {
-		case v == depNum:
-			ok := depErr != nil && testedNilBefore(depErr, terminator(lf.Pred)) && edgeGuarded(conv, lf.Pred, lf.Phi.Block(), depNonZero)
-			c.Check("R5.1", key+"/dependency-position", pos, ok, "target = dependency position, with the read's error tested and position != 0")
-		case v == gethNum:
-			ok := edgeGuarded(conv, lf.Pred, lf.Phi.Block(), append(append([]Edge{}, noDeps...), depNotBelow...))
-			if ok && !edgeGuarded(conv, lf.Pred, lf.Phi.Block(), noDeps) {
-				// on the dependency side it must also be past the error and zero tests
-				ok = depErr != nil && testedNilBefore(depErr, terminator(lf.Pred)) && edgeGuarded(conv, lf.Pred, lf.Phi.Block(), depNonZero)
+	// with dependencies the target is bounded by the dependency position
+	// (vacuous on the paths without dependencies) – as an upper-bound dataflow,
+	// so that the switch form, `t := head; if dep < head { t = dep }` and
+	// min(head, dep) are the same thing
+	_ = depBelow
+	_ = depNotBelow
+	ub := &ubound{fn: conv, vac: noDeps}
+	bounded := ub.Bounded(target, func(v ssa.Value) bool { return v == depNum })
+	c.Check("R5.1", "Converge/target-bounded-by-dependency-position", ld.Pos(), bounded,
+		"whenever the integration has dependencies, the step target is at most the position read from them")
+	// the dependency position is used only after its read succeeded and said > 0
+	okUse := depErr != nil
+	if depErr != nil {
+		for _, ref := range *depNum.Referrers() {
+			if _, dbg := ref.(*ssa.DebugRef); dbg {
+				continue
 			}
-			c.Check("R5.1", key+"/head", pos, ok, "target = head only without dependencies or when the dependency position is not below the head")
-		case isStopLoad(v, fStop):
-			c.OK("R5.1", key+"/stop-clip", pos, "stop clip only lowers the target (checked by C06 R6.1)")
-		default:
-			c.Violation("R5.1", key+"/other", pos, "the step target has a definition that is neither the dependency position, the guarded head, nor the stop clip: "+shortSym(v))
+			if b, isB := ref.(*ssa.BinOp); isB && b.Op == token.EQL {
+				if n, ok := constInt(b.Y); ok && n == 0 {
+					if !testedNilBefore(depErr, ref) {
+						okUse = false
+					}
+					continue // the zero test itself
+				}
+			}
+			at := ref
+			if ph, isPhi := ref.(*ssa.Phi); isPhi {
+				// used as the incoming value of an edge: judged at the end of the predecessor
+				for i, e := range ph.Edges {
+					if e == depNum {
+						at = terminator(ph.Block().Preds[i])
+						if !(testedNilBefore(depErr, at) && edgeGuarded(conv, ph.Block().Preds[i], ph.Block(), depNonZero)) {
+							okUse = false
+						}
+					}
+				}
+				continue
+			}
+			if !(testedNilBefore(depErr, at) && guardedByEdges(conv, at, depNonZero)) {
+				okUse = false
+			}
 		}
 	}
+	c.Check("R5.1", "Converge/dependency-position-used-after-error-and-zero-tests", dep.Pos(), okUse,
+		"the dependency position is compared or assigned only after the read's error was tested nil and the position was found non-zero")
 
 	// ---- R5.2 ---------------------------------------------------------
 	c.Rule("R5.2", "the dependency read is keyed: src_name = $i ← Task.srcName, ig_name = ANY($j) ← destConfig.Dependencies", 2)
